@@ -55,7 +55,9 @@ impl Parts {
 
     fn expected_options(&self) -> ConnectionOptions<Auth> {
         let mut o = ConnectionOptions::<Auth>::default();
-        assert_eq!((o.virtual_host.as_str(), o.heartbeat, o.channel_max, o.connection_timeout), ("/", 60, 0, None));
+        // the defaults the property names: virtual host "/", guest / guest (what the other fields default to is not C19's business)
+        assert_eq!(o.virtual_host.as_str(), "/");
+        assert_eq!(o.auth, Auth::Plain { username: "guest".to_string(), password: "guest".to_string() });
         if self.user.is_some() || self.pass.is_some() {
             let user = self.user.map(|u| u.1).filter(|u| !u.is_empty()).unwrap_or("guest");
             let pass = self.pass.map(|p| p.1).unwrap_or("guest");
